@@ -65,14 +65,17 @@ def centroid (x y : List (X α)) : X α :=
   div (sum (List.zipWith mul x (bcastRow x.length y))) (sum y)
 
 /-- `area = nancumsum(y); area = abs(area / area[-1] - 0.5)` -/
-def bisectorScores (y : List (X α)) : List (X α) :=
-  (nancumsum y).map (fun a => abs (sub (div a (lastOr (nancumsum y) nan)) (fin (1 / 2))))
+def scoresWith (total : X α) (area : List (X α)) : List (X α) :=
+  area.map (fun a => abs (sub (div a total) (fin (1 / 2))))
+def bisectorScores (y : List (X α)) : List (X α) := scoresWith (lastOr (nancumsum y) nan) (nancumsum y)
 /-- `index = area == area.min(); bisectors = where(index, x, nan); nanmean(bisectors)` -/
+def maskEq (m : X α) (l : List (X α)) : List Bool := l.map (fun a => eq a m)
 def bisector (x y : List (X α)) : X α :=
-  nanmean (whereNan ((bisectorScores y).map (fun a => eq a (npMin (bisectorScores y)))) x)
+  nanmean (whereNan (maskEq (npMin (bisectorScores y)) (bisectorScores y)) x)
 
 /-- `(y > 0) & (y == y.max())` -/
-def maxMask (y : List (X α)) : List Bool := y.map (fun v => lt (fin 0) v && eq v (npMax y))
+def maxMaskWith (m : X α) (y : List (X α)) : List Bool := y.map (fun v => lt (fin 0) v && eq v m)
+def maxMask (y : List (X α)) : List Bool := maxMaskWith (npMax y) y
 def lom (x y : List (X α)) : X α := nanmax (whereNan (maxMask y) x)
 def mom (x y : List (X α)) : X α := nanmean (whereNan (maxMask y) x)
 def som (x y : List (X α)) : X α := nanmin (whereNan (maxMask y) x)
